@@ -1,7 +1,7 @@
 /-
 C10 helpers, part 9: the value-level meaning (`refChain`): unfolding, monotonicity in the fuel; the agreement relation
 between a heap state and a value-level state; one command on the heap simulates the command on values when the input state
-owns distinct cells that the arguments do not share.
+owns distinct cells that the arguments do not share (and, for `cvapp`, that the context's variables do not share).
 -/
 import LiquerProofs.Lemmas.Iso8
 
@@ -147,11 +147,13 @@ structure CmdSim (h : Heap) (old : HState) (name : String) (rp : RState) (h4 : H
   nodup : name ≠ "getvar" → (cellsState h4 ⟨data, old.md⟩).Nodup
   mdfree : old.md ∉ cellsHV data ∧ old.md ∉ cellsVars (h4.metaAt old.md).vars
 
-theorem cmdH_sim {h : Heap} {old : HState} {name : String} {args : List HV} {h4 : Heap} {data : HV} {vol caching : Bool}
-    {rp : RState} (hc : cmdH h old name args = .ok h4 data vol caching) (lt : ∀ a ∈ cmdFoot h old args, a < h.next)
+theorem cmdH_sim {h : Heap} {old : HState} {ctx : List (Str × HV)} {name : String} {args : List HV} {h4 : Heap} {data : HV}
+    {vol caching : Bool} {rp : RState} (hc : cmdH h old ctx name args = .ok h4 data vol caching)
+    (lt : ∀ a ∈ cmdFoot h old ctx args, a < h.next)
     (nd : (cellsState h old).Nodup) (dj : ∀ a ∈ cellsState h old, ∀ v ∈ args, a ∉ cellsHV v)
     (hd : absHV h old.data = rp.data) (hv : absVars h (h.metaAt old.md).vars = rp.vars)
-    (kn : ((h.metaAt old.md).vars.map Prod.fst).Nodup) :
+    (kn : ((h.metaAt old.md).vars.map Prod.fst).Nodup)
+    (hctx : absVars h ctx = rp.vars) (cj : name = "cvapp" → ∀ a ∈ cellsVars ctx, a ∉ cellsState h old) :
     ∃ r', cmdV rp name (args.map (absHV h)) = some r' ∧ CmdSim h old name rp h4 data vol caching r' := by
   obtain ⟨n1, n2, n3, n4⟩ := nodup_cellsState nd
   have mdlt : old.md < h.next := lt _ (mem_cmdFoot.2 (Or.inl (md_mem_cellsState _ _)))
@@ -326,6 +328,28 @@ theorem cmdH_sim {h : Heap} {old : HState} {name : String} {args : List HV} {h4 
           by rw [hm]; exact kn, fun _ => ?_, n1, by rw [hm]; exact n2⟩
         · rw [hm, absVars_write_var _ kn n3 hg, hv]
         · rw [cellsState_write_val hcell]; exact nd
+      · cases hc
+    · cases hc
+  · -- cvapp: the write hits an object of the context, not of the state in hand
+    simp only at hc
+    split at hc
+    · split at hc
+      · rename_i k v _ k' hk _ a l hl
+        simp only [CmdOut.ok.injEq] at hc
+        obtain ⟨rfl, rfl, rfl, rfl⟩ := hc
+        have hk' := strOf_some hk
+        subst hk'
+        obtain ⟨hg, hin, hva, hcell⟩ := getVar_listAt hl
+        have hgv : getVarV rp.vars k' = some (.list l) := by
+          rw [← hctx, getVarV_abs, hg]; simp [absHV, hva]
+        have aold : a ∉ cellsState h old := cj rfl a hin
+        have ad : a ∉ cellsHV old.data := fun hx => aold (by simp [mem_cellsState, hx])
+        have aV : a ∉ cellsVars (h.metaAt old.md).vars := fun hx => aold (by simp [mem_cellsState, hx])
+        have hm := metaAt_write_val hcell (.list (l ++ [absHV h v])) old.md
+        refine ⟨rp, by simp [cmdV, absHV, hgv], ?_⟩
+        refine ⟨by rw [absHV_write_notin ad]; exact hd, by rw [hm, absVars_write_notin aV]; exact hv, by simp, by simp,
+          by rw [hm], by rw [hm], by rw [hm]; exact kn, fun _ => ?_, n1, by rw [hm]; exact n2⟩
+        rw [cellsState_write_val hcell]; exact nd
       · cases hc
     · cases hc
   · -- vol
